@@ -154,6 +154,8 @@ class CoreMixin:
             return n.attr is not None
         if n.op in NOT_NONE_OPS:
             return True
+        if n.op == "Ext" and not n.attr.endswith(".None"):
+            return True             # an imported object (unit, class, function, module)
         if n.op == "Call":
             f = n.args[0]
             if f.op == "Ext":
